@@ -100,6 +100,83 @@ def agg_assign(t, it):
     return v
 
 
+def _ctor_stores(tu, ctor, vals, lo, hi, c, depth=0):
+    """stores of a handler constructor called with `vals`; base-class constructors are followed"""
+    o = Oracle(params=vals, members=members(tu, lo, hi, c), calls=assign_calls(tu), any_call=True, any_member=True,
+               any_param=True).descend_into(tu)
+    it = Interp(ctor, o)
+    eff = []
+    for b, e in ctor.events():
+        if e["e"] == "init" and "base" in e and isinstance(e.get("x"), list) and e["x"][:1] == ["ctor"] and depth < 3:
+            sub = tu.fns.get(e["x"][1])
+            if sub is not None and sub.has_body:
+                sv = {}
+                for i, a in enumerate(e["x"][3]):
+                    try:
+                        sv[i] = it.ev(a)
+                    except Unknown:
+                        pass
+                eff += _ctor_stores(tu, sub, sv, lo, hi, c, depth + 1)
+    it.run()
+    return eff + list(it.effects)
+
+
+def c03b_carry(ctx, tu):
+    """IN_SEQUENCE replaces the expectation's handler by one that knows its sequences: the new handler must carry the
+    limits the old one has at that moment (whatever set them: the defaults, TIMES, RT_TIMES, ALLOW_CALL).  The
+    creation site is interpreted with an old handler of (min 5, max 7) and the constructor it calls - base
+    constructors and helpers followed - must store exactly these."""
+    n = 0
+    SS = "trompeloeil::call_matcher::set_sequence"
+    H = "trompeloeil::sequence_handler"
+    for fn in tu.find(SS):
+        if not fn.has_body:
+            continue
+        mk = [e for b, e in fn.events() if e["e"] in ("call", "new", "ctor") and
+              re.search(r"(make_unique<|^)trompeloeil::sequence_handler<(\d+)>", (e.get("q") or e.get("type") or ""))]
+        mk = [e for e in mk if not (e["e"] == "ctor" and e.get("q", "").startswith("std::"))]
+        if not mk:
+            ctx.ob("C03.b.carry", SS, None, pattern=fn.pat, unit=tu.name, inst=fn.q,
+                   detail="the creation of the new sequence handler is not recognised")
+            continue
+        e = mk[0]
+        N = re.search(r"trompeloeil::sequence_handler<(\d+)>", e.get("q") or e.get("type") or "").group(1)
+        n += 1
+        try:
+            o = Oracle(members=members(tu, 5, 7, 0), any_param=True, any_member=True, any_call=True).descend_into(tu)
+            it = Interp(fn, o)
+            vals = {}
+            for i, a in enumerate(e.get("args") or []):
+                try:
+                    vals[i] = it.ev(a)
+                except Unknown as u:
+                    vals[i] = ("opaque", str(u))
+            ctors = [c for c in tu.fns.values() if c.qe == H + "::sequence_handler" and c.has_body and
+                     not c.rec.get("special") and c.rec.get("clsq", "").endswith("<%s>" % N) and
+                     len(c.rec["params"]) == len(e.get("args") or [])]
+            if not ctors:
+                ctx.ob("C03.b.carry", SS, None, pattern=fn.pat, unit=tu.name, inst=fn.q,
+                       detail="the constructor the new sequence handler is created with was not found")
+                continue
+            why = None
+            for c in ctors:
+                st = role_stores(tu, _ctor_stores(tu, c, vals, 5, 7, 0))
+                if (st.get(F_MIN), st.get(F_MAX)) != (5, 7) and why is None:
+                    why = "with an old handler of (min 5, max 7) the new one gets (min %s, max %s)" % (
+                        _show(st.get(F_MIN)), _show(st.get(F_MAX)))
+            ctx.ob("C03.b.carry", SS, why is None, pattern=fn.pat, unit=tu.name, inst=fn.q,
+                   detail="" if why is None else "IN_SEQUENCE must keep the call-count limits set so far: " + why)
+        except Unknown as u:
+            ctx.ob("C03.b.carry", SS, None, pattern=fn.pat, unit=tu.name, inst=fn.q, detail="cannot interpret: %s" % u)
+    return n
+
+
+def _show(v):
+    if isinstance(v, tuple):
+        return "something else (%s)" % (v[1] if len(v) > 1 else v[0],)
+    return "nothing" if v is None else str(v)
+
+
 def c03a(ctx, tu):
     spec = {
         A["is_satisfied"]: (lambda c, lo, hi: c >= lo, lambda c, lo, hi: True, "count >= min"),
@@ -392,12 +469,13 @@ def run(ctx):
     ctx.assumptions = ["count <= max is maintained by C03.d (rows with count > max are don't-care for is_saturated)"]
     ctx.not_decided = []
     units = []
-    nt = nr = 0
+    nt = nr = ncarry = 0
     for tu in ctx.units(lambda n: n.startswith("core") or n.startswith("repo_ct") or n.startswith("coro")):
         if not tu.find(A["set_limits"]):
             continue
         c03a(ctx, tu)
         nt += c03b(ctx, tu)
+        ncarry += c03b_carry(ctx, tu)
         nr += c03e(ctx, tu)
         c03g(ctx, tu)
         protocol.report(ctx, tu, lambda r: True)   # the whole step protocol is a premise of this property
@@ -407,6 +485,7 @@ def run(ctx):
         C04.c04h(ctx, tu)    # ... also after the mock has been moved (the saturated list moves with it)
         units.append({"unit": tu.name, "functions": len(tu.fns)})
     ctx.floor("C03.b TIMES instantiations", nt, 4)
+    ctx.floor("C03.b.carry IN_SEQUENCE handler replacements", ncarry, 2)
     ctx.floor("C03.e RT_TIMES instantiations", nr, 2)
     c03c(ctx)
     ctx.extra["units"] = units
